@@ -837,7 +837,7 @@ func (x *Exec) evalCall(e *Expr, env *Env) Val {
 			// establishing the invariant before the first iteration: there is no previous iteration
 			return x.evalSpec(e.Args[0], env)
 		}
-		name := e.Args[0].Name
+		name := x.P.localAlias(env.fr.fn, e.Args[0].Name)
 		for ph, v := range env.fr.headPhi[head] {
 			if ph.Comment == name {
 				return v
@@ -1115,6 +1115,7 @@ func containsSym(s, sym string) bool {
 
 // addrOfLocal: the root of the heap object holding the named local variable (a variable whose address is taken).
 func (x *Exec) addrOfLocal(fr *Frame, name string) (string, bool) {
+	name = x.P.localAlias(fr.fn, name)
 	for _, b := range fr.fn.Blocks {
 		for _, in := range b.Instrs {
 			dr, ok := in.(*ssa.DebugRef)
